@@ -1,6 +1,13 @@
 /-
-  The settings table of opt.c as GENERATED from its source text (Gen/Optable.lean, harness/consts/optable.c) and
-  what the model says about each of its rows.  Vocabulary for the table theorems of Props/C18.lean.
+  The settings table of opt.c as GENERATED from its BEHAVIOUR (Gen/Optable.lean; harness/consts/optable.c compiles the
+  opt.c of the tree under test into itself, interposes getopt / getenv and experiments with opt_env, opt_args_early and
+  opt_args in forked children: which opt_t member changes for which letter / variable, and how the text is converted)
+  and what the model says about each of its rows.  Vocabulary for the table theorems of Props/C18.lean.
+  Rows are (key, opt_t member, behaviour class); behaviour classes:
+    string_to_int  int member, exact or refused ("7x" refused)      atoi   int member, a numeric prefix is enough
+    strdup         char* member, the text itself                    bounded_text  the same, an over-long text is refused
+    flag           bool member                                      other  anything else (target list, DSHPATH)
+    none           returns, no member changed                       exit0 / exit1  ends the program right there
 -/
 import PdshVerif.Opt.Lemmas
 import PdshVerif.Gen.Optable
@@ -52,13 +59,60 @@ def EnvRowHolds (fx : Fixes) (d : Defaults) (p : Pers) (env : Env) (argv : List 
 
 /-- the same for one row (letter, field, conversion) of the generated OPTION table: valued settings that have no
     environment variable (the remote user); fields of the environment table are covered there; rows that touch no
-    field, set a flag, or belong to another build (`-s`, AIX only: not in the option strings) carry no valued
-    setting of this property -/
+    field, set a flag or end the program carry no valued setting of this property; the target list (`-w`, class
+    `other`) is covered by `wcoll_refused` -/
 def OptRowHolds (d : Defaults) (p : Pers) (argv : List Str) (c : Cfg) (r : String × String × String) : Prop :=
   if r.2.1 = "ruser" then
     c.ruser = pick (lastArg (r.1.toList.headD ' ') (getopt (fullString d p) argv).1) none d.luser
   else if Gen.OT_ENVS.any (fun e => e.2.1 = r.2.1) then True
-  else if r.2.2 = "flag" ∨ r.2.2 = "none" then True
+  else if r.2.2 = "flag" ∨ r.2.2 = "none" ∨ r.2.2 = "exit0" ∨ r.2.2 = "exit1" then True
+  else if r.2.1 = "wcoll" then True
   else False
+
+/-! ### the `switch (c)` of opt_args, row by row -/
+
+/-- the flag of the model's record an opt_t member corresponds to (`none`: a member outside this property's record:
+    labels, sigint_terminates, recursive, preserve, debug, test_range_expansion) -/
+def flagOfField (field : String) : Option Flag :=
+  if field = "ret_remote_rc" then some .S
+  else if field = "kill_on_fail" then some .k
+  else if field = "info_only" then some .q
+  else if field = "target_is_directory" then some .y
+  else if field = "pcp_server" then some .z
+  else if field = "pcp_client" then some .Z
+  else none
+
+/-- the `case` of the model's switch that a generated row (letter, member, behaviour class) stands for; `none` = a
+    row the model has no `case` for (a new option, a new member, a changed conversion) -/
+def caseOfRow (r : String × String × String) : Option (List Case) :=
+  if r.2.2 = "exit0" then some [.exit0]
+  else if r.2.2 = "exit1" then some [.usage, .dbg]            -- `-d` before its repair: no `case 'd'`
+  else if r.2.2 = "none" then some [.keep, .dbg]              -- `-d` repaired
+  else if r.2.2 = "flag" then
+    match flagOfField r.2.1 with
+    | some f => some [.flag f]
+    | none => some [.keep]
+  else if r.2.2 = "string_to_int" then
+    if r.2.1 = "fanout" then some [.fanout]
+    else if r.2.1 = "connect_timeout" then some [.ctmo]
+    else if r.2.1 = "command_timeout" then some [.utmo]
+    else none
+  else if r.2.2 = "strdup" then
+    if r.2.1 = "rcmd_name" then some [.rcmd]
+    else if r.2.1 = "remote_program_path" then some [.path]
+    else none
+  else if r.2.2 = "bounded_text" then (if r.2.1 = "ruser" then some [.ruser] else none)
+  else if r.2.2 = "other" then (if r.2.1 = "wcoll" then some [.wcoll] else none)
+  else none
+
+/-- a letter with several rows (`-Q` sets two members): the model's case must be allowed by one row that names a
+    member of the model's record, or by all of them -/
+def SwitchRowAgrees (r : String × String × String) : Bool :=
+  match caseOfRow r with
+  | some cs => cs.contains (caseOf (r.1.toList.headD ' ')) ||
+      -- a second member of the same letter that lies outside the model's record
+      (r.2.2 = "flag" && (flagOfField r.2.1).isNone &&
+        Gen.OT_OPTS.any fun r' => r'.1 = r.1 && r'.2.2 = "flag" && (flagOfField r'.2.1).isSome)
+  | none => false
 
 end PdshVerif.Opt
